@@ -75,7 +75,13 @@ class PDFParser(PSStackParser[Union[PSKeyword, PDFStream, PDFObjRef, None]]):
 
         elif token is self.KEYWORD_STREAM:
             # stream object
-            ((_, dic),) = self.pop(1)
+            objs = self.pop(1)
+            if not objs:
+                # the keyword is not preceded by a stream dictionary
+                if settings.STRICT:
+                    raise PDFSyntaxError("stream without a dictionary")
+                return
+            ((_, dic),) = objs
             dic = dict_value(dic)
             objlen = 0
             if not self.fallback:
